@@ -43,7 +43,7 @@ func (p *refParser) fail(msg string) *refNode {
 	return nil
 }
 
-func refParse(b []byte) (*refNode, error) {
+func refTree(b []byte) (*refNode, error) {
 	p := &refParser{b: b}
 	p.ws()
 	n := p.value(0)
@@ -59,7 +59,7 @@ func refParse(b []byte) (*refNode, error) {
 
 // exactly one JSON object, optionally surrounded by whitespace
 func refIsObject(b []byte) bool {
-	n, err := refParse(b)
+	n, err := refTree(b)
 	return err == nil && n.kind == 'o'
 }
 
